@@ -31,11 +31,7 @@ namespace jsonrpc {
 Rpc::Rpc(event::Loop *loop)
     : request_timeout_(loop)
     , respond_timeout_(loop)
-{
-    using namespace std::placeholders;
-    request_timeout_.setCallback(std::bind(&Rpc::onRequestTimeout, this, _1));
-    respond_timeout_.setCallback(std::bind(&Rpc::onRespondTimeout, this, _1));
-}
+{ }
 
 Rpc::~Rpc()
 {
@@ -49,6 +45,11 @@ bool Rpc::initialize(Proto *proto, int timeout_sec)
 
     request_timeout_.initialize(std::chrono::seconds(1), timeout_sec);
     respond_timeout_.initialize(std::chrono::seconds(1), timeout_sec);
+
+    //! 注意：超时回调要在这里设置，而不能只在构造函数里设置一次。
+    //! TimeoutMonitor::cleanup() 会把回调清掉，否则 cleanup() 后再次 initialize()，请求就再也不会超时了
+    request_timeout_.setCallback(std::bind(&Rpc::onRequestTimeout, this, _1));
+    respond_timeout_.setCallback(std::bind(&Rpc::onRespondTimeout, this, _1));
 
     proto->setRecvCallback(
         std::bind(&Rpc::onRecvRequest, this, _1, _2, _3),
